@@ -288,7 +288,7 @@ pub fn run_property(prop: &str, tier: &str, units: Vec<Unit>, threads: usize, on
                 // unit that runs out of budget reports the deviation cost up to which it is complete
                 let mut bounds = bounds.clone();
                 if tier == "thorough" {
-                    let budget: u64 = std::env::var("VERIF_THOROUGH_UNIT_WALL").ok().and_then(|s| s.parse().ok()).unwrap_or(90);
+                    let budget: u64 = std::env::var("VERIF_THOROUGH_UNIT_WALL").ok().and_then(|s| s.parse().ok()).unwrap_or(45);
                     // sequence enumerations (d = 0) are not ordered by cost: a cut one is simply incomplete (its shallower
                     // siblings are separate units and complete); they get twice the budget
                     bounds.max_wall = bounds.max_wall.min(std::time::Duration::from_secs(if bounds.d > 0 { budget } else { 2 * budget }));
